@@ -146,6 +146,20 @@ func substFloats(s string) string {
 	})
 }
 
+// numerals at the edges of Go's base-0 integer syntax (prefixes, underscores, signs, leading
+// zeros, range): run first, as value, address, count and unit id
+var c20Numerals = []string{"+5", "-0", "0x", "0X1f", "1_000", "0b101", "0o17", "017", "00", "-0x10", "\u0663", "1e3", "0x1p4", "0_7", "0x_1F",
+	"1__0", "_1", "1_", "08", "0B_1", "65536", "0xFFFF", "0200000", "-32768", "-0x8000", "0_x1", "0X_f_F", "32767", "32768", "-32769", "0b", "0o", "-", "+", "0x10000", "-1"}
+
+func c20Corpus() [][]string {
+	var out [][]string
+	for _, n := range c20Numerals {
+		out = append(out, []string{"wr:uint16:0x10:" + n, "rh:uint16:0x10"}, []string{"wr:int16:0x10:" + n, "rh:int16:0x10"},
+			[]string{"rh:uint16:" + n}, []string{"rc:1+" + n}, []string{"sid:" + n, "ri:uint16:3"}, []string{"wr:int32:7:" + n, "wr:uint64:9:" + n, "rh:uint16:7+5"})
+	}
+	return out
+}
+
 func init() {
 	checks["C20"] = func(tier string, seed uint64, res *Result) error {
 		res.Rule = "the modbus-cli binary built from /repo, run as a subprocess against a real server with a 4 x 65536-cell memory handler (fresh per invocation): invocations of 1-4 commands from the documented grammar (all aliases, all types, decimal / hex / octal / binary numerals, +counts up to the wrap, negative and boundary values, float literals incl. NaN/inf/-0, bytes, string, sid) with every endianness / word-order option spelling and unit ids, plus malformed variants (arity, unknown type, bad / out-of-range numerals, empty parts); exit status, the handler invocations received by the server and the printed data lines are compared with the Lean pipeline (Cli.invoke -> Cli.execute -> closed-loop system model -> Cli.printedLines); distinct = (command classes of the invocation, option spelling, outcome)"
@@ -153,7 +167,8 @@ func init() {
 			return err
 		}
 		defer os.Remove(cliBin)
-		n := scale(tier, 260, 5000)
+		corpus := c20Corpus()
+		n := scale(tier, 260, 5000) + len(corpus)
 		type item struct {
 			modelLine, impl, key, human string
 		}
@@ -177,7 +192,14 @@ func init() {
 					e = "middle"
 				}
 				var real, model, classes []string
-				for k := 0; k < 1+r.Intn(4); k++ {
+				if i < len(corpus) {
+					real, model = corpus[i], corpus[i]
+					for range real {
+						classes = append(classes, "corpus")
+					}
+					e, w, u = []string{"big", "little"}[i%2], []string{"hf", "lf"}[(i/2)%2], 1
+				}
+				for k := 0; i >= len(corpus) && k < 1+r.Intn(4); k++ {
 					a, m, c := genCLIArg(r)
 					if strings.ContainsAny(a, " ") || a == "" {
 						continue // arguments with spaces / empty strings cannot be carried by the line protocol
